@@ -74,6 +74,10 @@ CHECKS = {
     text="Config.tla holds the abstract option lattice and Valid(c) transcribed from the documented constraints. A covering array of the valid product (pairwise quick / 3-wise thorough; strength measured and re-checked by TLC against the spec's own Domain) plus every one-factor-at-a-time invalid value is run on the real Sampler; TLC validates the observed outcome of each configuration against Valid (rejected at construction with zero likelihood calls / runs to completion) and the full trace of every valid run against PSRunTrace.tla (NoRaise and the run postconditions).",
     note=sysnote("Covering-array strength is what is measured, not the full product."),
     technique="TLA+ specs (Config.tla, PSRun.tla); covering-array runs of the implementation validated by TLC", design="DESIGN.md §4 C18"),
+ "C19": dict(level="model_checking",
+    text="PARTIAL (relational trace validation). StudentPair.tla is the ECME loop of fit_mvstud at the grain of one iteration, self-composed under g(x) = S P x + t (per-coordinate scalings in [1e-6, 1e6], translations bounded by conditioning, coordinate permutations); paired observed fits (namespace proxies, no hooks; every observed fit is bit-identical to the unobserved one) on Gaussian, t(1-5), lognormal, contaminated, duplicated, correlated and unit-cube data (d 1-8, n >= 4d) are validated by TLC against the coupling relation, the loop's control flow, the step definitions and the well-posedness clauses (finite location inside the bounding box, symmetric positive-definite scale, dof in (0, inf]), with condition-aware rounding tolerances and near-ties classified; ModeStatistics constructions are validated for the dof fallback, inverse and Cholesky sentence. On the pinned tree only initialisation, the inf-return path, well-posedness and ModeStatistics are exercised: the known finding optnu:inf-branch-despite-root makes the ECME body dead code (the body coupling is demonstrated against out/c19_fix.diff). Parameter recovery from large t-samples is an ensemble-statistics claim and is not claimed.",
+    note="Trusted: TLC; numpy/scipy linear algebra and special functions; that the coupling relation is inductive in real arithmetic is stated in the spec header, not machine-checked (TLC has no reals); tolerances are measured on the pinned code (worst observed <= 4% of tolerance).",
+    technique="TLA+ spec (StudentPair.tla) of the coupled fits; relational trace validation by TLC of observed paired fits", design="DESIGN.md §8.9 / §4 C19"),
  "C20": dict(level="model_checking",
     text="Trim.tla models ESS as an exact rational and trim_weights as the code's loop (percentile grid, linear-interpolated percentile, mask >= threshold, search from the top); TLC checks ESS bounds / scale invariance / uniform case, the upper-set structure, the ESS-ratio guarantee, renormalisation, alignment and termination; every non-tie state is replayed into tools.trim_weights / effective_sample_size / compute_ess at scales 2^-400, 1, 2^400; a transliteration validated against every TLC state serves as oracle for long / extreme-range vectors. VolVar.tla computes the volume-variation metric in exact rationals on small integer-lattice instances (d <= 2, N <= 4): TLC checks non-negativity and exact invariance under weight rescaling, permutation, translations and a generating set of invertible integer linear / affine maps, and refutes three wrong definitions; every instance is replayed into tools.volume_variation and through scale families (translations up to 1e8 x spread, scalings 2^+-20, anisotropic and rotated maps up to condition number 1e6, weights x 2^+-996) whose expected value is the spec's value for the small instance. Known finding: rotated maps of condition 1e6.",
     note="Trusted: TLC; numpy's percentile interpolation (read from source); states with exact ties or margins below 1e-9 are flagged by the spec and not replayed (counted). Volume metric: exact instances are small (d <= 2, N <= 4); degenerate instances (guard / regularised covariance) are checked for guard value, finiteness and non-negativity only; per-member tolerances are fixed at >= 100x the worst error of the pinned code (<= 1e-5).",
@@ -82,7 +86,6 @@ CHECKS = {
 NA = {
  "C01": "ensemble statistics over seeds (bias of an estimator): no single behaviour can satisfy or violate it; TLC has no probability measure or real arithmetic",
  "C02": "ensemble statistics over seeds (consistency/independence of the evidence error); the state-machine causes (global reseed, evidence formula, warm-up bookkeeping) are decided under C09/C04/C11",
- "C19": "numerical optimiser (ECME) on real-valued data; no discrete state/transition system to specify; the dof-fallback clause is monitored under C14",
 }
 PENDING = "not yet claimed in this revision: the specification and conformance check for it are still being built (see DESIGN.md §4)"
 
